@@ -101,6 +101,8 @@ def judgePrep (input obs : Json) : Except String Verdict := do
   let rawQuery := optStr obs "rawQuery"
   let uhost := optStr obs "uhost"
   let isHostName := optBool obs "isHostName"
+  if err == "spec-rejected" then
+    return { agree := true, spec := true, tags := ["prep", "server-url-rejected-by-validation"], nontrivial := false }
   if err != "" then
     return { agree := false, spec := false, tags := ["prep", "error:" ++ err], sig := "prep:error:" ++ err,
              note := "the repaired prepareRequest never fails on a request net/http accepted" }
@@ -136,17 +138,28 @@ def judgePrep (input obs : Json) : Except String Verdict := do
   let hv := Spec.headerViolation canon h gotHdr []
   let bodyOK := optBool obs "bodyOK"
   let methodOK := optStr obs "outMethod" == optStr input "method"
+  -- retries: every attempt must put the same faithful request on the wire (model: `retrySeen true`)
+  let atts : List (Bool × Bool) := match getArr obs "atts" with
+    | .ok a => a.toList.map fun e => (optBool e "bodyOK", optBool e "same")
+    | .error _ => []
+  let retryMax := (optInt input "retryMax").toNat
+  let fails := ((getStrList input "fails").toOption.getD []).length
+  let wantAtts := attemptsMade (if retryMax == 0 then none else some retryMax) (optInt input "limit" < 0) fails
+  let attsOK := atts.all fun (bo, same) => bo && same
+  let agree := agree && atts.length == wantAtts
   let sig :=
     if !methodOK then "prep:method" else if !pathOK then "prep:path" else if !queryOK then "prep:query"
     else if !hostSpec then "prep:host" else if !bodyOK then "prep:body"
+    else if !attsOK then (if atts.any (fun p => !p.1) then "prep:retry:body-differs-on-a-later-attempt" else "prep:retry:request-differs-on-a-later-attempt")
     else match hv with | some (kind, k) => s!"prep:{kind}:{k}" | none => ""
   let escaped := escPath != decPath
   pure { agree := agree, spec := sig == "", sig := sig,
          expected := Json.mkObj [("uri", wantURI), ("host", wantHost), ("hdrs", hdrJson wantHdr)],
          tags := ["prep", if escaped then "path-escaped" else "path-plain", if rawQuery == "" then "no-query" else "query",
                   if isHostName then "server-hostname" else "server-ip", if keepHost then "keepHost" else "no-keepHost",
-                  if optInt input "limit" < 0 then "stream" else "buffered"],
-         nontrivial := escaped || rawQuery != "" }
+                  if optInt input "limit" < 0 then "stream" else "buffered"] ++
+                 (if retryMax == 0 then [] else ["retry", s!"attempts:{atts.length}"]),
+         nontrivial := escaped || rawQuery != "" || atts.length > 1 }
 
 def unitOps : BodyOps Nat :=
   { len := id, gz := fun n => n + 23, ungz := fun n => some (n - 23), ofStr := String.utf8ByteSize, take := min, empty := 0 }
@@ -206,11 +219,23 @@ def featureSuffix (sc : Scenario) : String :=
 
 /-- Verdict for one request/response pair that went (or should have gone) to the backend;
 `res` is what the model says. -/
-def judgeOne (sc : Scenario) (obs : Json) (o : Oracle) (b : Built) (res : Result Sym) : Except String Verdict := do
+def judgeOne (sc : Scenario) (obs : Json) (o : Oracle) (b : Built) (res : Result Sym)
+    (attempts : Option Nat := none) : Except String Verdict := do
   let hits := (optInt obs "hits").toNat
   let some c := parseSeenResp obs | throw "no client observation"
   let bSeen := parseSeenReq obs
-  let nobody := sc.method == "HEAD" || bodylessStatus c.status
+  -- every request the backend saw (one per attempt when a retry policy is configured)
+  let allSeen : List SeenReq := if attempts.isSome then parseSeenAll obs else bSeen.toList
+  -- the request line after the RequestAdaptor's method / path / host sections (identity without one)
+  let l0 : ReqLine := ⟨sc.method, o.decPath, o.escPath, sc.host⟩
+  let l : ReqLine := match b.cfg.reqAd with | none => l0 | some _ => adaptReqLine b.cfg.σ b.cfg.esc b.cfg.reqLine l0
+  let adaptedLine := l != l0
+  if l.path != "" && !l.path.startsWith "/" then
+    -- the adapted path is not absolute: `svr.URL + path` glues it to the authority (`http://h:1234b` is no URL ⇒ 500;
+    -- `http://h:1234@b` is user-info + host `b` ⇒ 503; `http://h:1234?b` is a query): outside the model, not judged
+    return { agree := true, spec := true, tags := ["adapted-path-not-absolute", s!"adapted-path-not-absolute:status-{c.status}"],
+             nontrivial := false }
+  let nobody := sc.method == "HEAD" || l.method == "HEAD" || bodylessStatus c.status
   -- ---------------- agreement with the model
   let (agree, expected) : Bool × Json := match res with
     | .early st => (hits == 0 && c.status == st, Json.mkObj [("early", st)])
@@ -222,44 +247,58 @@ def judgeOne (sc : Scenario) (obs : Json) (o : Oracle) (b : Built) (res : Result
           ("bodyLen", cl.payload.content.len)])]
       match bSeen with
       | none => (false, exp)
-      | some bs =>
-        let wantURI := o.escPath ++ (if o.rawQuery == "" then "" else "?" ++ o.rawQuery)
-        let keysB := (b.clientHdr.map (·.1) ++ hopHeaders ++ [keyCE]).filter (· != keyCL)
-        let okB := bs.method == seen.method && bs.uri == wantURI && bs.host == seen.host
+      | some _ =>
+        let wantURI := (if l.escapedPath == "" then "/" else l.escapedPath) ++ (if o.rawQuery == "" then "" else "?" ++ o.rawQuery)
+        let adKeysQ := match b.cfg.reqAd with | some a => a.hkeys | none => []
+        let keysB := (b.clientHdr.map (·.1) ++ adKeysQ ++ hopHeaders ++ [keyCE]).filter (· != keyCL)
+        let okB := allSeen.all fun bs => bs.method == seen.method && bs.uri == wantURI && bs.host == seen.host
           && hdrEqOn keysB seen.hdr bs.hdr && bs.bodySum == seen.body.sum
         -- bodyless backend statuses: net/http itself drops Content-Type / Content-Length and the
         -- encoding headers carry no meaning; only the scenario's own headers are compared
         let adKeys := match b.cfg.respAd with | some a => a.hkeys | none => []
-        let keysC := if bodylessStatus sc.bStatus then (b.backendHdr.map (·.1) ++ adKeys).filter (· != "Content-Type")
+        let pOK := match res with | .proxied _ _ ok => ok | _ => false
+        let keysC := if !pOK then (cl.hdr.map (·.1)).filter (fun k => k != keyCL && k != "Content-Type")   -- a failure response / the last failed attempt's reply
+          else if bodylessStatus sc.bStatus then (b.backendHdr.map (·.1) ++ adKeys).filter (· != "Content-Type")
           else b.backendHdr.map (·.1) ++ adKeys ++ [keyCE, keyVary]
         let okC := c.err == "" && c.status == cl.status && hdrEqOn keysC cl.hdr c.hdr && c.frameOK
           && (nobody || (c.bodySum == cl.payload.content.sum
                 && (cl.hdr.get keyCL == [] || cl.hdr.get keyCL == [toString c.declared])))
-        (hits ≥ 1 && okB && okC, exp)
+        ((match attempts with | none => hits ≥ 1 | some n => hits == n && allSeen.length == n) && okB && okC, exp)
   -- ---------------- the property, on the observation
   let proxyOK := match res with | .proxied _ _ ok => ok | _ => false
   let honest := sc.bBody.enc != "lie"
-  let reqSig : String := match res, bSeen with
-    | .proxied _ _ _, some bs =>
-      if bs.method != sc.method then "req:method"
-      else if bs.path != o.decPath then "req:path"
+  let expHdr : Hdr := match b.cfg.reqAd with | some a => adaptHeader a b.clientHdr | none => b.clientHdr
+  let reqSigOf (bs : SeenReq) : String :=
+      if bs.method != l.method then "req:method"
+      else if bs.path != (if l.path == "" then "/" else l.path) then "req:path"
       else if bs.rawQuery != o.rawQuery then "req:query"
       else
         let skip := [keyCL] ++ (if sc.reqAd.isSome then [keyCE] else [])
-        match Spec.headerViolation o.canon b.clientHdr bs.hdr skip with
+        match Spec.headerViolation o.canon expHdr bs.hdr skip with
         | some (kind, k) => s!"req:{kind}:{k}"
         | none =>
-          if bs.host != Spec.expectedHost (sc.serverKind == "ip") sc.keepHost sc.host o.serverHP then "req:host"
+          if bs.host != Spec.expectedHost (sc.serverKind == "ip") sc.keepHost l.host o.serverHP then "req:host"
           else
             let bodyOK := match sc.reqAd with
               | none => bs.bodySum == (wireSym sc.body o.req).sum
               | some a => bs.decErr == "" && bs.decSum == (if a.body != "" then o.reqAd.sum else o.req.sum)
             if bodyOK then "" else "req:body"
-    | .proxied _ _ _, none => "req:not-forwarded" ++ (if c.status == 500 then ":500" else "")
-    | _, _ => ""
+  let reqSig : String := match res with
+    | .proxied _ _ _ =>
+      if allSeen.isEmpty then "req:not-forwarded" ++ (if c.status == 500 then ":500" else "")
+      else
+        -- the first attempt that is not the faithful (modulo the configured adaption) request
+        match (allSeen.zipIdx.map fun (bs, i) => (reqSigOf bs, i)).find? (fun p => p.1 != "") with
+        | some (sg, i) => sg ++ (if adaptedLine then "+adapted" else "") ++ (if i == 0 then "" else ":retry-attempt")
+        | none => ""
+    | _ => ""
   let respSig : String :=
     if c.err != "" then "resp:unreadable:" ++ c.err
     else if !c.frameOK then "resp:framing:" ++ c.frameErr ++ featureSuffix sc
+    else if !honest && hits ≥ 1 && c.status < 500 && !(sc.poolMax < 0 || (sc.poolMax == 0 && sc.proxyMax < 0))
+        && sc.bBody.decl.toNat > sc.bBody.len && !nobody then
+      -- a backend that sent fewer bytes than it declared, behind a buffered Proxy: never a success
+      "resp:short-body-delivered" ++ featureSuffix sc
     else if proxyOK && honest && hits ≥ 1 then
       if c.status != sc.bStatus then s!"resp:status:{c.status}" ++ (if sc.method == "HEAD" then "+head" else "")
           ++ (if sc.compression ≥ 0 then "+pcomp" else "")
@@ -293,6 +332,46 @@ def judgeOne (sc : Scenario) (obs : Json) (o : Oracle) (b : Built) (res : Result
   pure { agree := agree, spec := sig == "", sig := sig, expected := expected, tags := tags,
          nontrivial := hits ≥ 1 && (hopPresent || sc.body.len > 0 || sc.bBody.len > 0) }
 
+/-- The mirror pool: what the mirror backend must (not) have seen, and that nothing of it shows at the client. -/
+def judgeMirror (sc : Scenario) (obs : Json) (o : Oracle) (b : Built) (c : Option SeenResp) : Bool × String × List String :=
+  match sc.mirror with
+  | none => (true, "", [])
+  | some m =>
+    let mhits := (optInt obs "mhits").toNat
+    let influence := match c with
+      | some c => c.status == 418 || c.hdr.get "X-From-Mirror" != []
+      | none => false
+    match prepare b.ops o.canon b.cfg b.q with
+    | .ready msg seen =>
+      let matched := (msg.hdr.get (o.canon m.hdr)).any (· == m.val)
+      let l0 : ReqLine := ⟨sc.method, o.decPath, o.escPath, sc.host⟩
+      let l : ReqLine := match b.cfg.reqAd with | none => l0 | some _ => adaptReqLine b.cfg.σ b.cfg.esc b.cfg.reqLine l0
+      let msvr : ServerCfg := ⟨o.mirrorURL, o.mirrorHP, m.serverKind == "name", m.keepHost⟩
+      let want := mirrorSent o.canon (if matched then some (msvr, true) else none)
+        o.stub.plainSym ⟨seen.method, l.escapedPath, o.rawQuery, l.host, msg.hdr, seen.body, seen.streamed⟩
+      if !matched then (mhits == 0, if influence then "mirror:influence" else "", ["mirror:no-match"])
+      else
+        match parseSeenReqAt obs "m", want with
+        | some ms, some w =>
+          let wantBody := (w.payload.getD seen.body).sum
+          let wantURI := (if l.escapedPath == "" then "/" else l.escapedPath) ++ (if o.rawQuery == "" then "" else "?" ++ o.rawQuery)
+          let keys := (msg.hdr.map (·.1) ++ hopHeaders).filter (· != keyCL)
+          -- the mirror request lives on the client request's context: it can also be cancelled while its body is
+          -- being sent (the mirror backend then reads a truncated body: bodyErr) — admissible, the rest is compared
+          let okM := mhits == 1 && ms.method == w.method && hdrEqOn keys w.hdr ms.hdr && (ms.bodySum == wantBody || ms.bodyErr != "")
+            && ms.uri == wantURI && (l.host == "" || ms.host == w.wireHost msvr)
+            && w.url == targetURL o.mirrorURL l.escapedPath o.rawQuery
+          -- the property on the mirror's observation: hop-by-hop headers stripped there too
+          let hv := Spec.headerViolation o.canon msg.hdr ms.hdr [keyCL, keyCE]
+          let sig := if influence then "mirror:influence"
+            else match hv with | some (kind, k) => s!"mirror:req:{kind}:{k}" | none => ""
+          (okM, sig, ["mirror:sent", if seen.streamed then "mirror:stub-body" else "mirror:copy-body"] ++
+            (if ms.bodyErr != "" then ["mirror:cut-short"] else []))
+        -- the mirror request lives on the client request's context (cancelled when the primary's answer is
+        -- complete): not arriving is admissible, but then nothing else may have arrived either
+        | _, _ => (mhits == 0, if influence then "mirror:influence" else "", ["mirror:not-observed"])
+    | _ => (mhits == 0, if influence then "mirror:influence" else "", ["mirror:not-reached"])
+
 def judgeE2E : Judge := liftJudge fun input obs => do
   let sc := parseScenario input
   match obsPanic obs with
@@ -302,7 +381,28 @@ def judgeE2E : Judge := liftJudge fun input obs => do
     return { agree := false, spec := true, note := "harness: " ++ optStr obs "error", nontrivial := false, tags := ["harness-error"] }
   let o := parseOracle obs
   let b := build sc o defaultMax
-  judgeOne sc obs o b (runModel b o.canon)
+  let v ← match sc.retry with
+    | none => judgeOne sc obs o b (runModel b o.canon)
+    | some _ =>
+      match runModelRetry sc b o.canon with
+      | .early st => judgeOne sc obs o b (.early st)
+      | .adaptorFailed => judgeOne sc obs o b .adaptorFailed
+      | .proxied seenAll cl ok =>
+        match seenAll.head? with
+        | some seen => judgeOne sc obs o b (.proxied seen cl ok) (some seenAll.length)
+        | none => throw "retry model: no attempt"
+  let (mAgree, mSig, mTags) := judgeMirror sc obs o b (parseSeenResp obs)
+  let retryTags := match sc.retry with
+    | some r => ["retry", s!"retry-max:{r.max}", s!"scripted-failures:{sc.pre.length}"] ++
+        (if sc.pre.any (·.1 == "reset") then ["pre-reset"] else [])
+    | none => []
+  let adTags := (if sc.reqLine.method != "" then ["reqAd:method"] else []) ++ (if sc.reqLine.host != "" then ["reqAd:host"] else []) ++
+    (if sc.reqLine.path.isSome then ["reqAd:path"] else []) ++
+    (match sc.reqAd with | some a => if a.hkeys.isEmpty then [] else ["reqAd:header"] | none => []) ++
+    (match sc.respAd with | some a => if a.hkeys.isEmpty then [] else ["respAd:header"] | none => []) ++
+    (if sc.bBody.enc == "lie" then ["backend-short"] else [])
+  pure { v with agree := v.agree && mAgree, spec := v.spec && mSig == "", sig := if v.sig != "" then v.sig else mSig,
+                tags := v.tags ++ mTags ++ retryTags ++ adTags }
 
 /-! ## history judge (pool with memoryCache + response-editing filters) -/
 
